@@ -151,6 +151,8 @@ func accountURIs(u *Universe) []URI {
 		mkURI(u, cNameBefore, false, u.A, k[2], k[4]),
 		mkURI(u, cNameBefore, false, u.A, u.B, k[0], k[4]),
 		mkURI(u, cNameBefore, false, u.A, u.LLong, k[0]),
+		mkURI(u, cNameBefore, false, u.A, u.B, u.A, k[0], k[4]), // four names below the root
+		mkURI(u, cNameBefore, false, u.A, u.B, u.A, k[1], k[4]),
 		mkURI(u, cLookalike, false, u.LLong, k[0]),
 		mkURI(u, cLookalike, false, u.LChain, k[0]),
 		mkURI(u, cLookalike, false, u.LShort, k[0]),
@@ -176,6 +178,8 @@ func methodURIs(u *Universe) []URI {
 		mkURI(u, cNameBefore, false, k[0], k[1]),
 		mkURI(u, cNameBefore, false, k[1], k[4]),
 		mkURI(u, cNameBefore, false, u.A, k[0], k[4]),
+		mkURI(u, cNameBefore, false, u.A, u.B, k[0], k[4]), // four names below the root
+		mkURI(u, cNameBefore, false, u.A, u.B, k[1], k[4]),
 		mkURI(u, cNameBefore, false, u.LLong, k[0]),
 		mkURI(u, cNoRule, false, u.None, k[0]),
 		mkURI(u, cNoRule, false, u.LChain, k[0]),
